@@ -75,6 +75,15 @@ def gen_history(rng, n, tenants=("", "ns1")):
     return ops
 
 
+def fatal_storage_errors(cluster):
+    """a Raft core shut down by its storage layer is never acceptable in these scenarios"""
+    out = []
+    for n in cluster.nodes:
+        for line in n.log_grep(r"fatal storage error|log write index not equal|panicked at", 4):
+            out.append({"node": n.node_id, "line": line[:240]})
+    return out
+
+
 def scenario_late_join(binary, rng, writes=90, threshold=30, restart=True):
     """leader alone writes a history long enough to be compacted; node 2 joins and is caught
     up by snapshot install; compare what node 2 serves with the leader, before and after a
@@ -124,8 +133,11 @@ def scenario_late_join(binary, rng, writes=90, threshold=30, restart=True):
             got2 = read_all(n2, keys)
             obs["after_restart_diff"] = [{"key": k, "leader": ref2[k], "joiner": got2.get(k)} for k in ref2 if ref2[k] != got2.get(k)]
             obs["joiner_namespaces_after_restart"] = n2.namespaces()
+            obs["joiner_metrics_after_restart"] = n2.metrics()
+            obs["leader_metrics_after_restart"] = n1.metrics()
         obs["n_keys"] = len(keys)
         obs["sample_ops"] = [list(o) for o in ops[:6]]
+        obs["fatal"] = fatal_storage_errors(c)
     return obs
 
 
@@ -172,7 +184,7 @@ def scenario_far_behind(binary, rng, threshold=30, fill=1700, freeze=True):
             except RuntimeError as e:
                 obs["errors"].append(str(e)[:300])
         n1.publish("probe", GROUP, "p1")
-        ok, secs = wait_serves(n3, "probe", "p1", 120.0)
+        ok, secs = wait_serves(n3, "probe", "p1", 60.0)
         obs["probe_wait_s"] = round(secs, 1)
         obs["metrics_after"] = {str(n.node_id): n.metrics() for n in (n1, n2, n3)}
         obs["probe_served"] = bool(ok)
@@ -182,6 +194,7 @@ def scenario_far_behind(binary, rng, threshold=30, fill=1700, freeze=True):
         got = read_all(n3, keys)
         obs["diff"] = [{"key": k, "leader": ref[k], "node3": got.get(k)} for k in ref if ref[k] != got.get(k)]
         obs["node3_snapshot_files"] = n3.snapshot_files()
+        obs["fatal"] = fatal_storage_errors(c)
         obs["n_keys"] = len(keys)
     return obs
 
@@ -275,4 +288,5 @@ def scenario_cluster_writes(binary, rng, n_ops=40, fault=None):
                 obs["errors"].append("node %d does not serve the probe after quiescence" % n.node_id)
         time.sleep(1.0)
         obs["final"] = {str(n.node_id): read_all(n, [("", k) for k in keys]) for n in nodes}
+        obs["fatal"] = fatal_storage_errors(c)
     return obs
